@@ -268,6 +268,29 @@ pub fn install(prelude: &KMap) {
             _ => KObject::from(Probe(state)).into(),
         })
     });
+    // host-provided iterators over the elements of a list / tuple (C13 sources)
+    fn elements(args: &[KValue]) -> Vec<KValue> {
+        match args.first() {
+            Some(KValue::List(l)) => l.data().iter().cloned().collect(),
+            Some(KValue::Tuple(t)) => t.iter().cloned().collect(),
+            _ => Vec::new(),
+        }
+    }
+    prelude.add_fn("host_bytes", |ctx| {
+        let bytes: Vec<u8> = elements(ctx.args()).iter().map(|v| match v {
+            KValue::Number(n) => i64::from(n) as u8,
+            _ => 0,
+        }).collect();
+        Ok(KIterator::with_bytes(bytes.into())?.into())
+    });
+    prelude.add_fn("host_iter", |ctx| {
+        let items: Vec<KIteratorOutput> = elements(ctx.args()).into_iter().map(KIteratorOutput::Value).collect();
+        Ok(KIterator::with_std_iter(items.into_iter()).into())
+    });
+    prelude.add_fn("host_forward_iter", |ctx| {
+        let items: Vec<KIteratorOutput> = elements(ctx.args()).into_iter().map(KIteratorOutput::Value).collect();
+        Ok(KIterator::with_std_forward_iter(items.into_iter()).into())
+    });
     prelude.add_fn("plog", |_| {
         let lines: Vec<KValue> = LOG.with(|l| l.borrow_mut().drain(..).map(|s| KValue::from(s.as_str())).collect());
         Ok(KValue::Tuple(lines.into()))
